@@ -82,6 +82,8 @@ def matches(exp, obs):
     """Python-side comparison for S2C: equality, except the spec's explicit 'unconstrained' marker."""
     if isinstance(exp, dict) and "anystr" in exp:
         return isinstance(obs, dict) and "v" in obs
+    if isinstance(exp, dict) and "anybool" in exp:
+        return isinstance(obs, dict) and isinstance(obs.get("v"), bool)
     return exp == obs
 
 
@@ -170,6 +172,8 @@ def validate_calls(ctx, module, trace_module, trace_cfg, traces, label="c2s", ov
     total_rejected = 0
     rounds = 0
     next_id = max([t["id"] for t in traces] + [0]) + 1
+    ctx.add_eval(0, distinct_keys=[framework.jdump([t["cfg"], t["ev"][0]["args"]]) for t in traces
+                                   if len(t["ev"]) == 1 and t["ev"][0]["args"][0]])
     while traces and rounds < max_rounds:
         rounds += 1
 
@@ -828,3 +832,44 @@ def _httputil_classify(fn, x, cfg, exp, obs):
 
 
 CLASSIFY["HttpUtil"] = _httputil_classify
+
+
+# ============================================================================ C22 Linkify
+
+_LINKIFY_PERMS = {2: ["http", "ftp", "mailto"], 3: ["http", "javascript"]}
+_LINKIFY_EXTRA = {1: 'rel="nofollow"', 2: 'class="x"'}
+
+
+@adapter("Linkify", "linkify")
+def _a(x, cfg):
+    kw = {}
+    if cfg["shorten"]:
+        kw["shorten"] = True
+    if cfg["rp"]:
+        kw["require_protocol"] = True
+    if cfg["perm"] != 1:
+        kw["permitted_protocols"] = _LINKIFY_PERMS[cfg["perm"]]
+    if cfg["extra"] == 1:
+        kw["extra_params"] = "  " + _LINKIFY_EXTRA[1] + " "          # documented: stripped, one space inserted
+    elif cfg["extra"] == 2:
+        kw["extra_params"] = lambda href: " " + _LINKIFY_EXTRA[2] + "  "
+    text = T(_flat(x))
+    e = _esc()
+    r1 = e.linkify(text, **kw)
+    r2 = e.linkify(text.encode("utf-8"), **kw)                       # bytes input is accepted as well
+    if r1 != r2:
+        return {"err": "str/bytes input differ"}
+    return S(r1)
+
+
+def _linkify_classify(fn, x, cfg, exp, obs):
+    import re
+    sig = {"shorten": cfg.get("shorten"), "rp": cfg.get("rp"), "perm": cfg.get("perm"), "extra": cfg.get("extra")}
+    out = T(obs["v"]) if isinstance(obs, dict) and "v" in obs else ""
+    labels = re.findall(r">([^<]*)</a>", out)
+    # a label that ends in a cut entity: '&' followed by no ';' before the "..."
+    sig["label_cut_entity"] = any(re.search(r"&[^;]*\.\.\.$", l) for l in labels)
+    return sig
+
+
+CLASSIFY["Linkify"] = _linkify_classify
